@@ -353,3 +353,13 @@ func vfFileID(p string) uint64 {
 var sattrNone = xdrw.Sattr3{}
 
 type rfcRes = rfc.Res
+
+func vfCacheHits(n *AbsfsNFS) (attr, dir, neg uint64) {
+	m := n.metrics
+	if m == nil {
+		return
+	}
+	m.mutex.RLock()
+	defer m.mutex.RUnlock()
+	return m.attrCacheHits, m.dirCacheHits, m.negativeCacheHits
+}
